@@ -148,7 +148,12 @@ var c17HostileLines = []string{
 	"{\"a\":1", "{\"\":\"\"}", "{\"a\":{\"a\":{\"a\":{\"a\":[[[[null]]]]}}}}", "a=\"unterminated", "=novalue", "a==b", "\"", "\xff\xfe\x00", strings.Repeat("x", 70000),
 	"k=" + strings.Repeat("v", 5000), "{\"_entry\":5}", "{\"_entry\":\"e\",\"bad key\":\"v\"}", "\x1b[", "\x1b[31", "1.2.3.4.5.6", ":::::", "::", "1:", "0.0.0.0/", "{{",
 	"NaN", "+Inf", "-5e-324", "9223372036854775808", "val=NaN", "{\"val\":\"Inf\"}",
+	// address-like garbage for the ip() line filter
+	"listening on [::]:5000", "std::string", "a::", "::", ":::", "1::", "::g", "1.2.3.", "1.1.1.1.", "fe80::1: timeout", "::ffff:1.2.3.4", "1:2:3:4:5:6:7:8:9",
+	".", "..", "1..1", "a:b:c", "::::1", "10.0.0.1:8080", "x 999.999.999.999 y", "0:0", "f:", ":f", "1.2.3.4.", "::1::", "dead:beef", "1.", "1.2", "....", "12345.1.1.1",
 }
+
+var c17IPLines = c17HostileLines[len(c17HostileLines)-29:]
 
 func c17GenRecs(t *rapid.T) []model.Rec {
 	n := rapid.IntRange(0, 8).Draw(t, "nrecs")
@@ -197,7 +202,25 @@ func c17Gen(t *rapid.T) C17Case {
 	c.Params = c17GenParams(t)
 	c.Caps = mockstore.Caps{Label: rapid.IntRange(0, 15).Draw(t, "caps-label"), Line: rapid.IntRange(0, 15).Draw(t, "caps-line")}
 	layout := datagen.RapidLayout{T: t, Heavy: true, Comments: true, RawOK: true}
-	switch rapid.IntRange(0, 9).Draw(t, "origin") {
+	switch rapid.IntRange(0, 10).Draw(t, "origin") {
+	case 10:
+		// The hand-written address scanner of the ip() line filter against address-like garbage.
+		c.Origin = "ipfilter"
+		pat := rapid.SampledFrom([]string{"10.0.0.1", "10.0.0.0/8", "::1", "2001:db8::/32", "10.0.0.1-10.0.0.9", "::/0", "0.0.0.0/0"}).Draw(t, "ip-pattern")
+		op := rapid.SampledFrom([]string{"|=", "!="}).Draw(t, "ip-op")
+		q := `{} ` + op + ` ip("` + pat + `")`
+		if rapid.Bool().Draw(t, "ip-metric") {
+			q = `count_over_time(` + q + `[1m])`
+		}
+		c.Query = gen.BS(q)
+		for i := range c.Recs {
+			if rapid.IntRange(0, 2).Draw(t, "ip-line") != 0 {
+				c.Recs[i].Line = gen.BS(rapid.SampledFrom(c17IPLines).Draw(t, "ip-garbage") + rapid.SampledFrom([]string{"", " ", " 10.0.0.1", ":", "."}).Draw(t, "ip-tail"))
+			}
+		}
+		if len(c.Recs) == 0 {
+			c.Recs = []model.Rec{{TS: datagen.BaseTS, Line: gen.BS(rapid.SampledFrom(c17IPLines).Draw(t, "ip-garbage-one")), Labels: map[string]string{}}}
+		}
 	case 0:
 		c.Origin = "bytes"
 		c.Query = gen.BS(rapid.SliceOfN(rapid.Byte(), 0, 40).Draw(t, "querybytes"))
